@@ -17,7 +17,7 @@ from typing import Dict, List
 
 from lib import batch, pipecases, pipeline, tlc
 from lib.core import Ctx
-from props import pipe_common
+from props import pipe_common, seeding
 
 MODES = ["best", "separate", "joined", "all", "single"]
 VECTORS = [
@@ -212,6 +212,10 @@ def run(ctx: Ctx):
         raise tlc.MachineryError("MC_Worker_d2: the D2 deviation is no longer reachable in the model")
     ctx.notes["named_deviation_D2"] = "EmptySelectionAborts=TRUE violates Inv_C07 in the model (no peak selected)"
     ctx.exhaustive = True
+    # the two numerical stages on their own (getInitialAlignment / refine on degenerate geometries: molecules longer than the
+    # labelled part, seeds next to either end, windows without labels): a call that raises where Seeding.tla has no named
+    # abort is a C07 violation (the run would abort)
+    seeding.run_part(ctx, "C07", model=False)
     n = 35 if quick else 350
     jobs = [(ctx.seed * 13 + 7, i, ctx.workdir) for i in range(n)]
     with mp.get_context("fork").Pool(min(14, n)) as pool:
